@@ -585,10 +585,19 @@ def _diff_vs_canonical(raw, can_raw, world, canon, cfg, out):
 def _check_finite(res, sc, out, where):
     iscsd = sc["data"]["channels"] == 2
     names = FINITE_NAMES_CROSS if iscsd else FINITE_NAMES_AUTO
+    # a caller that traps floating-point errors (np.seterr(divide="raise", invalid="raise")): the densities, coherence
+    # and transfer function of a finite record are specified to be finite, so evaluating them must not divide 0 by 0
+    trap = (sc.get("seed", 0) % 4 == 0) and sc.get("amp_band") is None
+    if trap:
+        out.count("fp_trapping_caller")
     with np.errstate(all="ignore"):
         for n in names:
             try:
-                v = getattr(res, n)
+                if trap:
+                    with np.errstate(divide="raise", invalid="raise"):
+                        v = getattr(res, n)
+                else:
+                    v = getattr(res, n)
             except Exception as e:
                 out.violate("exception", f"getattr:{n}", f"{where}: {type(e).__name__}: {str(e)[:120]}")
                 continue
